@@ -72,27 +72,37 @@ def main():
             items.append(("seed:" + os.path.basename(d), os.path.join(d, "patch.diff"), "seeded"))
     for f in sorted(glob.glob(os.path.join(VERIF, "selftest", "benign", "*.diff"))):
         items.append(("benign:" + os.path.basename(f)[:-5], f, "benign"))
+    work = []
     for name, patch, kind in items:
         if only and not any(o in name for o in only):
             continue
         if kind == "seeded":
             meta = json.load(open(os.path.join(os.path.dirname(patch), "meta.json")))
-            props = [meta["breaks_property"]]
+            props = [meta["breaks_property"]] + [c.split(":")[0] for c in meta.get("caught_by", [])
+                                                 if c.split(":")[0] != meta["breaks_property"]]
         elif kind == "benign":
             props = ALL if cross else props_for(name.split(":", 1)[1])
         else:
             props = props_for(name)
         if cross:
             props = ALL
-        print(name, props, flush=True)
-        res = run_patch(patch, props)
-        res["kind"] = kind
-        entry = db.setdefault(name, {"kind": kind, "checks": {}})
-        entry["kind"] = kind
-        if "repo_tests" in res:
-            entry["repo_tests"] = res["repo_tests"]
-        entry["checks"].update(res["checks"])
-        json.dump(db, open(path, "w"), indent=1, sort_keys=True)
+        work.append((name, patch, kind, props))
+    par = int(os.environ.get("SENS_PAR", "4"))
+    os.environ.setdefault("VERIF_JOBS", str(max(1, 16 // par)))
+    import concurrent.futures as cf
+    with cf.ThreadPoolExecutor(max_workers=par) as ex:
+        futs = {ex.submit(run_patch, patch, props): (name, kind, props)
+                for name, patch, kind, props in work}
+        for fut in cf.as_completed(futs):
+            name, kind, props = futs[fut]
+            res = fut.result()
+            print(name, props, {p_: c_["exit"] for p_, c_ in res["checks"].items()}, flush=True)
+            entry = db.setdefault(name, {"kind": kind, "checks": {}})
+            entry["kind"] = kind
+            if "repo_tests" in res:
+                entry["repo_tests"] = res["repo_tests"]
+            entry["checks"].update(res["checks"])
+            json.dump(db, open(path, "w"), indent=1, sort_keys=True)
     write_md(db)
 
 
